@@ -76,6 +76,21 @@ CHECKS = {
              "event_matching_heads == from-scratch scan (multiset) with an exact reverse map and flow_id_states == group-by of flow_states.",
         note="The state is brought to the post-`Go` situation natively; everything after is traced. Outside: programs outside the catalogue, longer histories.",
         ref="4/C09"),
+    "C06": dict(
+        text="For 9 catalogue programs (parents awaiting/starting children with actions, finish and StopFlow of the parent, when/or-when scopes, or-groups, two flows sharing an identical "
+             "action, activate of waiting / immediately finishing flows, two activators with equal and different arguments, grand-children) and every history of 2 (thorough 3-4) events "
+             "incl. ActionStarted/Finished feedback arriving early, late or never, symbolic payload offsets and tie-breaks and an optional idle gap, on every path of the real interpreter: "
+             "every running non-activated flow has a running parent after each event; per action uid Stop comes only after Start, never after Finished, at most once, exactly when the last "
+             "flow holding the unfinished action ends; activated flows have one running instance per argument set iff an activator runs and answer their trigger exactly once.",
+        note="Owners of an action are read from FlowState.action_uids, the starter of a flow from parent_uid; the activation oracle is a per-program table. Outside: other hierarchies, explicit deactivate.",
+        ref="4/C06"),
+    "C08": dict(
+        text="For 8 signatures (0-3 parameters with/without defaults), all 58 call shapes (k positional + any named subset), three call forms ($r = await, start..as + match Finished, two "
+             "concurrent instances) and two argument styles (event members / caller locals whose names clash with callee parameters), with symbolic int, str (len<=2, any code point) and "
+             "None/True/list/dict argument values, every path of the real create_flow_instance/_start_flow/slide binds each parameter to its positional or named argument evaluated in the "
+             "caller or to its default, returns the callee's return value to the caller, and leaves caller and sibling variables of the same names untouched.",
+        note="Program text is generated per call shape and parsed natively; the event carrying the symbolic values and everything after it is traced. Outside: >3 parameters, globals, surplus arguments.",
+        ref="4/C08"),
 }
 
 NOT_APPLICABLE = {
